@@ -99,16 +99,37 @@ def apply_unified(patch_text, read):
     out = {}
     for path, hs in files:
         src = read(path).split('\n')
-        res, at = [], 0
+        res, at, shift = [], 0, 0
         for start, body in hs:
-            i = max(start - 1, 0)
+            old = [txt for tag, txt in body if tag in (' ', '-')]
+            want = max(start - 1, 0) + shift
+
+            def fits(i):
+                return i >= at and i + len(old) <= len(src) and src[i:i + len(old)] == old
+            # like git apply: the hunk goes where its old lines are found, nearest to the stated line (earlier hunks or earlier commits may have moved it); no fuzz in the lines
+            i = None
+            for d in range(0, len(src) + 1):
+                if fits(want - d):
+                    i = want - d
+                    break
+                if fits(want + d):
+                    i = want + d
+                    break
+            if i is None:
+                j = max(start - 1, 0)
+                for tag, txt in body:
+                    if tag in (' ', '-'):
+                        if j >= len(src) or src[j] != txt:
+                            raise ValueError('%s mismatch in %s at line %d' % ('context' if tag == ' ' else 'removed line', path, j + 1))
+                        j += 1
+                raise ValueError('hunk at line %d of %s does not apply' % (start, path))
+            shift = i - max(start - 1, 0)
             res.extend(src[at:i])
             for tag, txt in body:
-                if tag in (' ', '-'):
-                    if i >= len(src) or src[i] != txt:
-                        raise ValueError('%s mismatch in %s at line %d' % ('context' if tag == ' ' else 'removed line', path, i + 1))
-                    if tag == ' ':
-                        res.append(src[i])
+                if tag == ' ':
+                    res.append(src[i])
+                    i += 1
+                elif tag == '-':
                     i += 1
                 else:
                     res.append(txt)
